@@ -26,7 +26,8 @@ namespace internal {
 template <typename T>
 constexpr auto trunc_int(T const x) noexcept -> T
 {
-    return (T(static_cast<llint_t>(x)));
+    // (-1, -0] truncates to negative zero
+    return (x < T(0) && x > T(-1)) ? -T(0) : T(static_cast<llint_t>(x));
 }
 
 template <typename T>
